@@ -39,7 +39,13 @@ def expressions(tier, seed):
     out += ["''.join(('1', '2'))", "'a'.upper()", "'a b'.split()", "', '.join(['a', 'b'])", "'abc'.startswith('a')", "(1).bit_length()", "'{}'.format(1)", "max(1, 2)", "min((1, 2), (0, 5))",
             "1 if 0 else 2", "1 / 0", "1 % 0", "2 ** -1", "2 ** 0.5", "0 ** -1", "'a' * 3", "[0] * 2", "1 < 2 < 3", "3 > 2 > 2", "1 < 2 > 0 == 0", "1 == 1.0 == True", "'a' < 'b' <= 'b'",
             "{1} <= {1, 2} <= {1, 2, 3}", "1 < 'a' < 2", "0 < 1 / 0", "1 and 2 and 0 and 1 / 0", "0 or '' or [] or 7", "0 or 1 / 0", "1 or 1 / 0", "not not 2", "not (1, )", "9 ** 9 ** 9", "1 << 100000",
-            "len('abc') == 3", "bool([]) or bool([0])", "sum([1, 2, 3]) > 5", "sorted([3, 1, 2])[0]", "abs(-3) + max(1, 2)", "str(1) + 'a'", "int('12') * 2", "int('x')", "list(range(3))", "tuple('ab')"]
+            "len('abc') == 3", "bool([]) or bool([0])", "sum([1, 2, 3]) > 5", "sorted([3, 1, 2])[0]", "abs(-3) + max(1, 2)", "str(1) + 'a'", "int('12') * 2", "int('x')", "list(range(3))", "tuple('ab')",
+            # keyword arguments, typed operands under type-sensitive operators (the same value as int / float / bool in one process)
+            "int('11', base=2)", "int('11', 2)", "dict(a=1)", "dict(a=1) == {'a': 1}", "sorted([1, 2], reverse=True)", "sorted([1, 2], reverse=True) == [2, 1]", "sum([1], start=1)", "sum([1], 1)",
+            "round(2.567, ndigits=1)", "max([], default=3)", "min([4], default=0)", "str(b'a', encoding='ascii')", "int(x='3') if False else 0", "list(**{})", "dict(**{'a': 1})", "sorted([1, 2], key=abs)",
+            "'v%s' % 2", "'v%s' % 2.0", "'%s' % True", "'%s' % 1", "'ab' * 2", "'ab' * 2.0", "'ab' * True", "1 << 4", "1 << 4.0", "6 & 3", "6 & 3.0", "2 ** 10", "2.0 ** 10", "True + True", "1 + 1", "1.0 + 1.0",
+            "[0] * 2", "[0] * 2.0", "7 // 2", "7.0 // 2", "7 % 3", "7.0 % 3", "-7 // 2", "divmod(7, 2)", "divmod(7.0, 2)", "1 == 1.0", "1 is 1.0", "hash(1) == hash(1.0)", "str(1)", "str(1.0)", "str(True)",
+            "repr(2)", "repr(2.0)", "bool(0.0)", "bool(0)", "int(True)", "int(2.9)", "float(2)", "complex(1)", "abs(-2)", "abs(-2.0)", "round(2.5)", "round(3.5)", "round(2)", "type(1) == type(1.0)"]
     n = 4000 if tier == "quick" else 80000
     for _ in range(n):
         k = rnd.random()
